@@ -114,10 +114,107 @@ def neq_any(got, exp):
     return z3.Or(*[zi(x) != zi(y) for x, y in zip(g, e)])
 
 
+import sys as _sys
+if hasattr(_sys, 'set_int_max_str_digits'):
+    _sys.set_int_max_str_digits(0)
+_sys.setrecursionlimit(max(_sys.getrecursionlimit(), 100000))
+
+
+class _NoEval(Exception):
+    pass
+
+
+def eval_mod(term, env, mod, uf=None):
+    """fast evaluation of an integer/boolean term modulo `mod` by walking the AST with python integers.
+    env: {name: int|bool}; isz_* predicates mean `== 0 (mod mod)`; other uninterpreted functions: uf[name](args) or a
+    fixed pseudo-random function of the arguments (good enough to separate different polynomials)."""
+    memo = {}
+    K = z3
+
+    def ev(t):
+        i = t.get_id()
+        if i in memo:
+            return memo[i]
+        r = ev1(t)
+        memo[i] = r
+        return r
+
+    def ev1(t):
+        if K.is_int_value(t):
+            return t.as_long() % mod
+        if K.is_true(t):
+            return True
+        if K.is_false(t):
+            return False
+        if K.is_bv_value(t):
+            return ('bv', t.size(), t.as_long())
+        k = t.decl().kind()
+        ch = t.children()
+        if K.is_const(t) and k == K.Z3_OP_UNINTERPRETED:
+            v = env.get(t.decl().name(), 0)
+            if K.is_int(t):
+                return v % mod
+            if K.is_bool(t):
+                return bool(v)
+            if K.is_bv(t):
+                return ('bv', t.size(), int(v) & ((1 << t.size()) - 1))
+            raise _NoEval()
+        if k == K.Z3_OP_ADD:
+            return sum(ev(c) for c in ch) % mod
+        if k == K.Z3_OP_MUL:
+            r = 1
+            for c in ch:
+                r = r * ev(c) % mod
+            return r
+        if k == K.Z3_OP_SUB:
+            r = ev(ch[0])
+            for c in ch[1:]:
+                r -= ev(c)
+            return r % mod
+        if k == K.Z3_OP_UMINUS:
+            return -ev(ch[0]) % mod
+        if k == K.Z3_OP_ITE:
+            return ev(ch[1]) if ev(ch[0]) else ev(ch[2])
+        if k == K.Z3_OP_AND:
+            return all(ev(c) for c in ch)
+        if k == K.Z3_OP_OR:
+            return any(ev(c) for c in ch)
+        if k == K.Z3_OP_NOT:
+            return not ev(ch[0])
+        if k == K.Z3_OP_XOR:
+            return ev(ch[0]) != ev(ch[1])
+        if k == K.Z3_OP_IMPLIES:
+            return (not ev(ch[0])) or ev(ch[1])
+        if k == K.Z3_OP_EQ:
+            return ev(ch[0]) == ev(ch[1])
+        if k == K.Z3_OP_DISTINCT:
+            vs = [ev(c) for c in ch]
+            return len(set(vs)) == len(vs)
+        if k == K.Z3_OP_UNINTERPRETED:
+            nm = t.decl().name()
+            args = [ev(c) for c in ch]
+            if nm.startswith('isz_'):
+                return args[0] % mod == 0
+            if uf and nm in uf:
+                return uf[nm](*args)
+            import hashlib
+            h = int(hashlib.sha256((nm + repr(args)).encode()).hexdigest(), 16)
+            return (h % mod) if K.is_int(t) else bool(h & 1)
+        if k in (K.Z3_OP_BUREM, K.Z3_OP_BUREM_I):
+            a, b = ev(ch[0]), ev(ch[1])
+            return ('bv', a[1], a[2] % b[2] if b[2] else a[2])
+        raise _NoEval()
+    return ev(term)
+
+
 def eval_int(term, model, mod):
     """evaluate an integer term under a {name: int} assignment, modulo mod"""
     if isinstance(term, int):
         return term % mod
+    try:
+        return eval_mod(term, model, mod)
+    except _NoEval:
+        pass
     subs = []
     for v in z3_vars(term):
         val = model.get(v.decl().name(), 0)
@@ -192,6 +289,38 @@ def mk(b):
     return z3.BoolVal(b) if isinstance(b, bool) else b
 
 
+def quick_refute(got, exp, cond, seed, fixed=None, mod=ref.Q, tries=3):
+    rnd = random.Random(seed * 7919 + 13)
+    g, e = flat(got), flat(exp)
+    terms = [zi(t) for t in g + e] + ([cond] if cond is not None else [])
+    names = {}
+    for t in terms:
+        for v in z3_vars(t):
+            names[v.decl().name()] = v
+    for _ in range(tries):
+        env = {}
+        for n, v in names.items():
+            if z3.is_int(v):
+                env[n] = rnd.randrange(mod)
+            elif z3.is_bv(v):
+                env[n] = rnd.getrandbits(v.size())
+            else:
+                env[n] = bool(rnd.getrandbits(1))
+        if fixed:
+            env.update(fixed)
+        if cond is not None:
+            try:
+                if not eval_mod(cond, env, mod):
+                    # steer: atoms isz(...) are rarely true at random points; only refute on points that satisfy cond
+                    continue
+            except _NoEval:
+                return None
+        for x, y in zip(g, e):
+            if eval_mod(zi(x), env, mod) != eval_mod(zi(y), env, mod):
+                return env
+    return None
+
+
 class Identities:
     """bookkeeping for polynomial-identity obligations so that failures can be confirmed mod q"""
 
@@ -206,6 +335,15 @@ class Identities:
             f = z3.And(cond, f)
         self.chk.must_unsat(name, f, group=group)
         self.meta[name] = (got, exp, fixed, key or name.split(':')[0])
+        # cheap refutation attempt at seeded random points (only ever finds counterexamples; "holds" is the solver's verdict)
+        try:
+            pt = quick_refute(got, exp, cond, self.ctx.seed, fixed)
+        except Exception:
+            pt = None
+        if pt is not None:
+            ob = self.chk.obs[-1]
+            ob.result, ob.seconds, ob.model = 'sat', 0.0, {k: v for k, v in pt.items() if isinstance(v, (int, bool))}
+            ob.meta = 'refuted by evaluation at a seeded random point modulo q before calling the solver'
 
     def settle(self, mod=ref.Q, extra=None):
         """after discharge: turn sat / undecided identity obligations into violations when the difference is
